@@ -10,12 +10,14 @@ package main
 //           err <class> w=<n> <hex of anything written>
 
 import (
-	"io"
 	"bytes"
 	"encoding/base64"
 	"encoding/json"
 	"fmt"
+	"io"
 	"math"
+	"math/big"
+	"net"
 	"strconv"
 	"strings"
 	"time"
@@ -51,9 +53,29 @@ func declareCols(t jsonline.Template, cols []colDesc) jsonline.Template {
 				continue
 			}
 		}
-		t = t.With(c.name, formatByName[c.format], tySample[c.ty])
+		t = t.With(c.name, formatByName[c.format], sampleOf(c.ty, buildTemplateCount+i))
 	}
 	return t
+}
+
+// sampleOf: the raw-type sample a column is declared with. Only its TYPE counts: a []byte column is declared in turn
+// with a slice that has room behind it and with a nil slice; an unsupported raw type ("other") in turn with a struct,
+// and with pointers whose types implement encoding.TextUnmarshaler / fmt.Stringer (a library may look for those).
+func sampleOf(ty string, turn int) interface{} {
+	switch ty {
+	case "bytes":
+		if turn%3 == 0 {
+			return []byte(nil)
+		}
+	case "other":
+		switch turn % 3 {
+		case 0:
+			return new(big.Int)
+		case 1:
+			return &net.IP{}
+		}
+	}
+	return tySample[ty]
 }
 
 var buildTemplateCount int
@@ -134,6 +156,21 @@ func (w *recWriter) Write(p []byte) (int, error) {
 	return len(p), nil
 }
 
+// richWriter: the same recorder behind a writer that also HAS the optional methods a library may look for
+// (io.ByteWriter, io.StringWriter, io.ReaderFrom): each call of any of them is one more write reaching the writer.
+type richWriter struct{ *recWriter }
+
+func (w richWriter) WriteByte(c byte) error            { _, err := w.recWriter.Write([]byte{c}); return err }
+func (w richWriter) WriteString(s string) (int, error) { return w.recWriter.Write([]byte(s)) }
+func (w richWriter) ReadFrom(r io.Reader) (int64, error) {
+	b, err := io.ReadAll(r)
+	if err != nil {
+		return 0, err
+	}
+	n, err := w.recWriter.Write(b)
+	return int64(n), err
+}
+
 func (w *recWriter) all() []byte {
 	var b []byte
 	for _, x := range w.writes {
@@ -189,16 +226,20 @@ func runLineWith(ti, to jsonline.Template, line []byte, late func(ti, to jsonlin
 		rd := bytes.NewReader(append(append([]byte{}, line...), '\n'))
 		var imp jsonline.Importer
 		var exp jsonline.Exporter
+		var sink io.Writer = w
+		if (runLineCount/4)%2 == 1 {
+			sink = richWriter{w}
+		}
 		if variant&1 == 0 {
-			imp, exp = ti.GetImporter(rd), to.GetExporter(w)
+			imp, exp = ti.GetImporter(rd), to.GetExporter(sink)
 		} else {
-			imp, exp = jsonline.NewImporter(rd).WithTemplate(ti), jsonline.NewExporter(w).WithTemplate(to)
+			imp, exp = jsonline.NewImporter(rd).WithTemplate(ti), jsonline.NewExporter(sink).WithTemplate(to)
 			// a template that declares nothing is what an importer / exporter has when WithTemplate is never called
 			if late == nil && ti.CreateRowEmpty().Len() == 0 {
 				imp = jsonline.NewImporter(rd)
 			}
 			if late == nil && to.CreateRowEmpty().Len() == 0 {
-				exp = jsonline.NewExporter(w)
+				exp = jsonline.NewExporter(sink)
 			}
 		}
 		if late != nil {
@@ -654,7 +695,7 @@ func randCols(r *rng, depth int, weird bool, types bool) []colDesc {
 	return cols
 }
 
-var scalarTexts = []string{`null`, `true`, `false`, `0`, `-0`, `-0.0`, `"-0.0"`, `-0e0`, `"-1e-400"`, `1`, `-1`, `12`, `1.5`, `-2.25`, `1e2`, `1E+2`, `0.10`, `1e400`, `1e-400`, `123456789012345678901234567890`,
+var scalarTexts = []string{`null`, `true`, `false`, `0`, `"00"`, `"-00"`, `"+00"`, `"0001-01-01T00:00:00Z"`, `-0`, `-0.0`, `"-0.0"`, `-0e0`, `"-1e-400"`, `1`, `-1`, `12`, `1.5`, `-2.25`, `1e2`, `1E+2`, `0.10`, `1e400`, `1e-400`, `123456789012345678901234567890`,
 	`255`, `256`, `-129`, `65536`, `2147483648`, `9223372036854775807`, `9223372036854775808`, `18446744073709551616`, `1632518460`, `253402300799`, `253402300800`, `-62167219201`, `-62135596800`, `0.5`,
 	`""`, `"a"`, `"12"`, `"-1"`, `"1.5"`, `"true"`, `"false"`, `"TRUE"`, `"t"`, `"1e2"`, `"0x10"`, `"010"`, `"NaN"`, `"Inf"`, `" 1"`, `"2021-09-24"`, `"2021-02-30"`, `"2021-9-24"`, `"2021-09-24T21:21:00Z"`,
 	`"2021-09-24T21:21:00+02:00"`, `"2021-09-24T21:21:00.5-03:30"`, `"2021-01-02T3:04:05Z"`, `"2021-01-02T03:04:05,5Z"`, `"2021-01-02T03:04:05.123456789123Z"`, `"2021-01-02T03:04:05.5+00:00"`, `"2021-09-24T21:21:00"`, `"2021-09-24T21:21:00+24:60"`, `"0000-01-01T00:00:00Z"`, `"9999-12-31T23:59:59Z"`, `"1632518460"`,
@@ -848,8 +889,17 @@ func genC01(cw *caseWriter, seed uint64, tier string) {
 	nested := []func() interface{}{
 		func() interface{} { rr := jsonline.NewRow(); rr.Set("q", 1); rr.Set("b", "z"); return rr },
 		func() interface{} { rr := jsonline.NewRow(); rr.Set("ratio", math.NaN()); return rr },
-		func() interface{} { rr := jsonline.NewRow(); rr.SetValue("n", jsonline.NewValueNumeric("12,5")); return rr },
-		func() interface{} { rr := jsonline.NewRow(); rr.SetValue("ok", jsonline.NewValueBoolean("perhaps")); rr.Set("x", 1); return rr },
+		func() interface{} {
+			rr := jsonline.NewRow()
+			rr.SetValue("n", jsonline.NewValueNumeric("12,5"))
+			return rr
+		},
+		func() interface{} {
+			rr := jsonline.NewRow()
+			rr.SetValue("ok", jsonline.NewValueBoolean("perhaps"))
+			rr.Set("x", 1)
+			return rr
+		},
 		func() interface{} {
 			in := jsonline.NewRow()
 			in.Set("deep", json.Number("1e"))
@@ -881,7 +931,9 @@ func genC01(cw *caseWriter, seed uint64, tier string) {
 		for how := 0; how < 2; how++ { // (a short count WITHOUT an error breaks the contract of io.Writer: the writer's fault, left out)
 			long := strings.Repeat("y", 50+k*997)
 			all := []colDesc{{name: "id", format: "auto", ty: "none"}, {name: "text", format: "auto", ty: "none"}, {name: "pad", format: "string", ty: "none"}}
-			emitShortWrite(cw, all, func() interface{} { return map[string]interface{}{"id": 1, "text": "a line that does not fit in one frame", "pad": long} }, limit, how)
+			emitShortWrite(cw, all, func() interface{} {
+				return map[string]interface{}{"id": 1, "text": "a line that does not fit in one frame", "pad": long}
+			}, limit, how)
 			emitShortWrite(cw, nil, func() interface{} { return map[string]interface{}{"only": long} }, limit, how)
 			emitShortWrite(cw, []colDesc{{name: "id", format: "numeric", ty: "int"}, {name: "text", format: "string", ty: "none"}}, func() interface{} { return map[string]interface{}{"id": 7, "text": long} }, limit, how)
 		}
@@ -1476,6 +1528,8 @@ func genC02(cw *caseWriter, seed uint64, tier string) {
 		`{"a":{"b":1},"a.b":2}`, `{"a.b":2,"a":{"b":1}}`, `{"x":[{"a":{"b":{"c":1}}}],"a":{"b":{"c":2}},"a.b.c":3,"a.b":4}`, `{"Ref":7,"ref":8,"REF":9}`,
 		`{"\u00e9":1,"\u00c9":2,"k":3,"\u212a":4}`, `{"ab":1,"a\\u0062":2}`, `{"C:\\temp":1,"C:\temp":2}`, `{"a":1,"a ":2,"a\u0000":3}`,
 		`{"o":{"id":1,"ID":2,"Id":{"id":3,"iD":4}}}`}
+	fixed = append(fixed, `{"a":-0,"b":{"c":-0,"d":[-0]},"e":0,"f":-0.0,"g":1E2,"h":1e2}`, `{"n":null,"e":{},"l":[],"s":"","z":0,"f":false}`,
+		`{"pad":"`+strings.Repeat("p", 70000)+`","after":1}`)
 	for _, f := range fixed {
 		emitRoundTrip(cw, []byte(f), true)
 	}
@@ -1721,7 +1775,7 @@ func genC16(cw *caseWriter, seed uint64, tier string) {
 	// every format x raw type as the ONE declared column, fed with every scalar text and the edges of the raw types'
 	// ranges (float32 against float64 magnitudes, integer bounds, base64 that is none under a binary column whose raw
 	// type is already a string): the line is accepted exactly when the column converts
-	edge := []string{`3.5e38`, `"3.5e38"`, `-1e39`, `3.4028235e38`, `3.4028236e38`, `3.4028235677973366e38`, `1e39`, `"1e-46"`, `1e-46`, `16777217`, `"%%% not base64 %%%"`, `"QUJD="`, `"a"`, `"QUJD"`,
+	edge := []string{`3.5e38`, `"3.5e38"`, `-1e39`, `3.4028235e38`, `3.4028236e38`, `3.4028235677973366e38`, `1e39`, `"1e-46"`, `1e-46`, `16777217`, `"%%% not base64 %%%"`, `"QUJD="`, `"a"`, `"QUJD"`, `{}`, `{"b":1}`, `"0001-01-01T00:00:00Z"`, `"0001-01-01T01:00:00+01:00"`, `-62135596800`, `"00"`, `"-00"`, `"+00"`, `"000"`, `""`,
 		`127`, `128`, `-128`, `-129`, `32768`, `4294967295`, `4294967296`, `18446744073709551615`, `-9223372036854775809`}
 	for _, f := range fmtNames {
 		for _, ty := range append([]string{"none"}, tyNames...) {
